@@ -21,6 +21,23 @@ FRAME_CTORS = {
 RESETTERS = {'Memvid::commit_from_records', 'Memvid::commit_skip_indexes_inner', 'Memvid::recover_wal', 'Memvid::commit_parallel_inner'}
 
 
+def counting_appenders(F):
+    """wrappers of append_wal_entry whose every Ok exit has passed an increment of pending_frame_inserts after the append"""
+    c = getattr(F, '_counting_appenders', None)
+    if c is not None:
+        return c
+    c = set()
+    for p in lib.wrappers_of(F, ('Memvid::append_wal_entry',)):
+        g = F.fns[p]
+        apps = lib.op_calls(F, g, ('Memvid::append_wal_entry',), max_wrapper_depth=0)
+        incs = [st for st in lib.field_stores(g, 'Memvid', 'pending_frame_inserts')
+                if lib.slice_back(g, lib.rv_operands(st['rv'])).has_field('Memvid', 'pending_frame_inserts')]
+        if apps and incs and all(any(lib.call_success_dominates(g, a, st['bb']) and g.dominates(st['bb'], ex['bb']) for a in apps for st in incs) for ex in g.ok_exits()):
+            c.add(p)
+    F._counting_appenders = c
+    return c
+
+
 def run(ctx):
     ctx.rule('WMC-C06a', 'Toc.frames is only pushed to, exactly once, in apply_records; other &mut uses are element access; Frame constructed only at reviewed sites; Frame.id never stored')
     ctx.rule('FLOW-C06b', 'pushed Frame.id == toc.frames.len() read in the same loop iteration')
@@ -110,15 +127,19 @@ def run(ctx):
     put = ctx.need('MPT-C06c', 'Memvid::put_internal')
     if put is not None:
         ctx.touch(put, len(put.blocks))
-        apps = put.calls_to('Memvid::append_wal_entry')
+        apps = lib.op_calls(F, put, ('Memvid::append_wal_entry',))
         incs = [st for st in lib.field_stores(put, 'Memvid', 'pending_frame_inserts')]
-        ctx.floor('MPT-C06c:appends', len(apps), 2, 'append_wal_entry sites in put_internal (parent, chunk)')
+        ctx.floor('MPT-C06c:appends', len(apps), 2, 'WAL append sites in put_internal (parent, chunk)')
         exits = {ex['bb'] for ex in put.ok_exits()}
         for a in apps:
             ctx.evaluations += 1
             sb, how = put.success_block(a)
             if sb is None:
                 ctx.bad('MPT-C06c', put, 'append result is not checked', line=a.line, detail='append-unchecked')
+                continue
+            # a wrapper that appends *and* counts (every Ok exit of the wrapper passes an increment after its append)
+            if a.local_callee in counting_appenders(F):
+                ctx.ok('MPT-C06c', put, 'append through %s, which increments pending_frame_inserts after its append on every Ok path' % a.key.split('::')[-1], line=a.line)
                 continue
             # the increment: a store whose value derives from the counter itself (x = x (+) 1), right after this append
             cands = [st for st in incs if put.dominates(sb, st['bb']) and
@@ -136,6 +157,23 @@ def run(ctx):
             else:
                 ctx.bad('MPT-C06c', put, 'a successful insert append can reach the next append or an Ok exit without incrementing pending_frame_inserts',
                         line=a.line, detail='append-without-increment')
+    # the counter counts *inserts*: a tombstone is a WAL record but not a frame, so the delete path must not advance it
+    dele = ctx.need('MPT-C06c', 'Memvid::delete_frame')
+    if dele is not None:
+        ctx.touch(dele, len(dele.blocks))
+        culprit = None
+        for st in lib.field_stores(dele, 'Memvid', 'pending_frame_inserts'):
+            if lib.slice_back(dele, lib.rv_operands(st['rv'])).has_field('Memvid', 'pending_frame_inserts'):
+                culprit = ('delete_frame itself', st['line'])
+        for c in lib.op_calls(F, dele, ('Memvid::append_wal_entry',)):
+            if c.local_callee in counting_appenders(F):
+                culprit = (c.key, c.line)
+        ctx.evaluations += 1
+        if culprit:
+            ctx.bad('MPT-C06c', dele, 'the tombstone append advances pending_frame_inserts (via %s): next_frame_id() overshoots by one per pending delete, so ids predicted for later '
+                    'puts (and the data derived with them) name the wrong frame' % culprit[0], line=culprit[1], detail='tombstone-counted-as-insert')
+        else:
+            ctx.ok('MPT-C06c', dele, 'the tombstone append does not advance pending_frame_inserts')
     # resets
     n_reset = 0
     for f in F.fns.values():
